@@ -184,11 +184,19 @@ def check_history(ctx, c):
         if e1c is not None or not zoo.rows_equal(zoo.as_rows(o1), zoo.as_rows(o1c), tol)[0]:
             viol("transform-after-failed-call-differs", "transform(X1) after a %s call differs from before" % ("raising" if eb is not None else "hostile"))
             return
-    # fresh clone, X1 alone
+    # fresh clone, each input alone: every output of the history must be what a single call gives
     okk, why = zoo.rows_equal(zoo.as_rows(o1), zoo.as_rows(_transform(est_b, c, name, c1)), 1e-9)
     if not okk:
         viol("clone-transform-differs", "transform(X1) late in a history differs from transform(X1) alone on an identically fitted clone: %s" % why)
         return
+    if o2 is not None:
+        est_c = zoo.make(c, V, n_tr)
+        Xc, kwc = zoo.data(c, "train", fit=True)
+        est_c.fit(Xc, **kwc)
+        okk, why = zoo.rows_equal(zoo.as_rows(o2), zoo.as_rows(_transform(est_c, c, name, c2)), 1e-9)
+        if not okk:
+            viol("clone-transform-differs", "transform(X2) after transform(X1) differs from transform(X2) alone on an identically fitted clone: %s" % why)
+            return
     if state["ok"]:
         ctx.ok(sg, not name.startswith("Slid"))
 
